@@ -270,6 +270,18 @@ pub fn resolve_type<'n>(node_type: &'n str, doc: &RustDocument) -> (&'n str, Opt
 pub fn as_rust_type(node_type: &str, doc: &RustDocument) -> RustFieldType {
     let (node_type, namespace) = split_type(node_type);
 
+    // a prefix bound to a namespace of the schema set names a component of that namespace, even one called like a builtin
+    if let Some(ns) = namespace {
+        if doc.find_namespace_by_abbreviation(ns).is_some() {
+            return RustFieldType::Other(OtherRustType {
+                name: to_pascal_case(node_type),
+                module: doc
+                    .find_module_name_from_namespace_reference(ns)
+                    .map(ToString::to_string),
+            });
+        }
+    }
+
     match node_type {
         "byte" => RustFieldType::I8,
         "string" | "normalizedString" | "base64Binary" | "hexBinary" | "anyURI" | "date" | "dateTime" | "time"
